@@ -33,10 +33,10 @@ def plan_cases(ctx, maxlen, limit=None):
     return cases
 
 
-def random_hist(ctx, n, n_ops, base=0):
+def random_hist(ctx, n, n_ops, base=0, **kw):
     cases = []
     for i in range(n):
-        cases.append(gen_hist.gen_case(ctx.seed, base + i, n_ops=n_ops))
+        cases.append(gen_hist.gen_case(ctx.seed, base + i, n_ops=n_ops, **kw))
     return cases
 
 
@@ -90,7 +90,7 @@ def run_c07(ctx):
     quick = ctx.quick
     ctx.mc("MC_Plan", {"MaxLen": 3}, ["RunRefines", "ChainHolds"])
     _api_machine(ctx, quick, 6, 400 if quick else 8000)
-    rc = random_hist(ctx, 200 if quick else 4000, 22, base=10000)
+    rc = random_hist(ctx, 200 if quick else 4000, 22, base=10000, sparse_init=True)
     for c in rc:
         c["groundrep"] = True
     tf = ctx.drive("hist", rc, hashseeds=(0, 1, 2) if quick else tuple(range(16)))
